@@ -12,10 +12,10 @@ PROPERTY = "C19"
 LEVEL = "exploration"
 DISTINCT_RULE = (
     "orders are created through Trade.create_order in tight loops, from 16 threads, under the real and the simulated clock, for strategy names (empty, unicode, "
-    "500 chars) and every separator; every reference is replayed through process_current_orders of a second framework instance; distinct = distinct references created"
+    "500 chars) and every separator; every reference is replayed through process_current_orders and through the cleared-orders (settlement) processing of a second framework instance; distinct = distinct references created"
 )
-RULES = ["unique", "charset", "separator", "roundtrip", "config_separator"]
-MINIMA = {"quick": {"rule_unique": 150000, "rule_separator": 500, "rule_config_separator": 500, "rule_roundtrip": 1000}, "thorough": {"rule_unique": 3000000}}
+RULES = ["unique", "charset", "separator", "roundtrip", "roundtrip_cleared", "config_separator"]
+MINIMA = {"quick": {"rule_unique": 150000, "rule_separator": 500, "rule_config_separator": 500, "rule_roundtrip": 1000, "rule_roundtrip_cleared": 500}, "thorough": {"rule_unique": 3000000}}
 ASSUMPTIONS = ["the exchange accepts upper/lower case letters, digits and - . _ + * : ; ~ (written down here, not read from flumine)", "distinct strategy names (same-name strategies are warned against and share a hash by construction)"]
 VALID = set(string.ascii_letters) | set(string.digits) | set("-._+*:;~")
 NAMES = ["", "a", "Strategy", "ünïcødé-стратегия-戦略", "x" * 500, "with space", "UPPER_lower-123", "\n\t", "S0", "S1"]
@@ -340,5 +340,26 @@ def _roundtrip(case, out):
             out.v("reference-not-resolved", {"late_strategy": True}, ref=o.customer_order_ref, strategy=late_name)
         elif got.trade.strategy is not lb or got.bet_id != bet_id:
             out.v("reference-attributed-to-wrong-order-or-strategy", {"late_strategy": True}, ref=o.customer_order_ref, got_strategy=got.trade.strategy.name)
+    # the same references come back once more in the settlement (cleared orders) response: each settles the order that produced it
+    from betfairlightweight.resources.bettingresources import ClearedOrders
+    from flumine.events.events import ClearedOrdersEvent
+
+    rows = [
+        {"betId": bet_id, "customerOrderRef": ref, "customerStrategyRef": "x", "marketId": "1.23456", "selectionId": 12, "handicap": 0.0, "profit": float(k % 7), "sizeSettled": 2.0, "priceMatched": 2.0, "eventId": "1", "eventTypeId": "7", "betOutcome": "WON", "side": "BACK", "orderType": "LIMIT", "persistenceType": "LAPSE", "priceRequested": 2.0, "betCount": 1, "priceReduced": False, "placedDate": "2022-01-01T12:00:00.000Z", "settledDate": "2022-01-01T13:00:00.000Z", "lastMatchedDate": "2022-01-01T12:30:00.000Z"}
+        for k, (name, oid, ref, bet_id) in enumerate(made)
+    ]
+    rng.shuffle(rows)
+    if m is not None:
+        cleared = ClearedOrders(moreAvailable=False, clearedOrders=rows)
+        cleared.market_id = "1.23456"
+        wb.fw._process_cleared_orders(ClearedOrdersEvent(cleared))
+        for name, oid, ref, bet_id in made:
+            if name == unknown:
+                continue
+            out.rule("roundtrip_cleared")
+            got = m.blotter._orders.get(oid)
+            co = getattr(got, "cleared_order", None) if got is not None else None
+            if co is None or str(co.bet_id) != str(bet_id):
+                out.v("settlement-reference-not-resolved-to-its-order", {"sep_default": ref[13] == "-"}, ref=ref, strategy=name, got_bet=None if co is None else co.bet_id, bet=bet_id)
     out.d("roundtrip:%d:%d" % (case["i"], len(made)))
     wb.close()
